@@ -226,7 +226,9 @@ ENUM_SETS = [['a', 'b'], ['a'], ['a', 'b', 'x'], [1, 2], [1], [0, 1, 2, 5], [1, 
 def canon(tree):
   """tree -> canonical tree of the constructed object, or None when the constructors refuse it."""
   try:
-    return render(build(tree))
+    c = render(build(tree))
+    # the canonical tree must rebuild to itself (a Union default can move when re-applied: open finding)
+    return c if render(build(c)) == c else None
   except (ValueError, TypeError, KeyError, Unrenderable):
     return None
 
@@ -441,6 +443,14 @@ def acc_py(spec, v):
   except (TypeError, ValueError, KeyError):
     return False
 
+def val_py(spec, v):
+  """v is a value of spec: apply returns it unchanged."""
+  try:
+    out = spec.apply(copy.deepcopy(v))
+  except (TypeError, ValueError, KeyError):
+    return False
+  return safe_value(out) == safe_value(v)
+
 def impl_apply(spec, vtree, partial):
   """-> (outcome tree, returned python value or None)"""
   try:
@@ -497,11 +507,11 @@ def localise(x, y, v, rel, into_candidates=True):
   t = T()
   if not x.frozen:
     for cx, cy, cv in children(x, y, v):
-      if rel(cx, cy) and acc_py(cy, cv) and not acc_py(cx, cv):
+      if rel(cx, cy) and val_py(cy, cv) and not acc_py(cx, cv):
         return localise(cx, cy, cv, rel, into_candidates)
     if isinstance(x, t.Union) and isinstance(y, t.Union):
       for oc in y.candidates:
-        if rel(x, oc) and acc_py(oc, v) and not acc_py(x, v):
+        if rel(x, oc) and val_py(oc, v) and not acc_py(x, v):
           return localise(x, oc, v, rel, into_candidates)
     elif isinstance(x, t.Union) and into_candidates:
       # the candidate that vouches for y refuses the value itself
